@@ -159,6 +159,8 @@ def run(ctx):
     for _s, op, _t in gN.edges:
         key = op["name"] + (":" + op["kind"] if op["name"] == "edit" else ":" + str(op["k"]) + op["v"] if op["name"] == "forge" else "")
         kN[key] = kN.get(key, 0) + 1
+    if not any(op["name"] == "warm" for _s, op, _t in gN.edges) or not any(op["name"] == "warm" for _s, op, _t in gT.edges):
+        raise MachineryError("vacuous: no warm history in the printed graphs")
     for need in ("edit:drop", "edit:dup", "edit:inject", "edit:starve", "edit:lensmall", "edit:truncfix", "edit:extfix",
                  "edit:flip", "edit:splice", "edit:reflect", "forge:1own", "forge:2own", "forge:2claimM", "forge:2claimO",
                  "forge:2claimG", "forge:2ownG", "forge:2bad", "forge:2relay", "forge:3own", "forge:3claimM", "forge:3claimO",
@@ -226,14 +228,14 @@ def run(ctx):
             for side in ("I", "R"):
                 if not xn.get("N.completed.%s.%s" % (side, typ)):
                     raise MachineryError("vacuous: no real handshake completed on side %s with a %s identity" % (side, typ))
-        for need in ("N.completed-with-attacker.I", "N.completed-with-attacker.R", "N.liveswap", "N.enumerated-forms.flip",
+        for need in ("N.completed-with-attacker.I", "N.completed-with-attacker.R", "N.liveswap", "N.warm", "N.enumerated-forms.flip",
                      "N.enumerated-forms.starve", "N.enumerated-forms.truncfix", "N.enumerated-forms.lensmall"):
             if not xn.get(need):
                 raise MachineryError("vacuous: noise replay counter %s is zero" % need)
-        for need in ("T.accepted.client", "T.accepted.server", "T.refused", "T.records-flipped"):
+        for need in ("T.accepted.client", "T.accepted.server", "T.refused", "T.records-flipped", "T.warm"):
             if not xt.get(need):
                 raise MachineryError("vacuous: tls replay counter %s is zero" % need)
-        for need in ("S.returned", "S.refused", "S.wrong-closed"):
+        for need in ("S.returned", "S.refused", "S.wrong-closed", "S.warm"):
             if not xs.get(need):
                 raise MachineryError("vacuous: swarm replay counter %s is zero" % need)
         for combo in ("tcp.noise", "tcp.tls", "quic.tls13"):
